@@ -323,8 +323,33 @@ func TLSDialWithDialer(d *net.Dialer, network, addr string, config *tls.Config) 
 	return h, nil
 }
 
-func TLSConnRead(c *tls.Conn, b []byte) (int, error)  { return TLSConns[c].Read(b) }
-func TLSConnWrite(c *tls.Conn, b []byte) (int, error) { return TLSConns[c].Write(b) }
+// TLSStalled: connections whose TLS negotiation never completes (the peer connected at TCP level and then
+// sent nothing): Handshake - explicit, or implied by the first Read / Write - blocks until the connection closes.
+var TLSStalled = map[net.Conn]bool{}
+
+func tlsWait(c *tls.Conn) error {
+	u := TLSConns[c]
+	if vc, ok := u.(*Conn); ok && TLSStalled[u] {
+		<-vc.closeq
+		return errClosed
+	}
+	return nil
+}
+
+func TLSConnHandshake(c *tls.Conn) error { return tlsWait(c) }
+
+func TLSConnRead(c *tls.Conn, b []byte) (int, error) {
+	if err := tlsWait(c); err != nil {
+		return 0, err
+	}
+	return TLSConns[c].Read(b)
+}
+func TLSConnWrite(c *tls.Conn, b []byte) (int, error) {
+	if err := tlsWait(c); err != nil {
+		return 0, err
+	}
+	return TLSConns[c].Write(b)
+}
 func TLSConnClose(c *tls.Conn) error                  { return TLSConns[c].Close() }
 func TLSConnLocalAddr(c *tls.Conn) net.Addr           { return TLSConns[c].LocalAddr() }
 func TLSConnRemoteAddr(c *tls.Conn) net.Addr          { return TLSConns[c].RemoteAddr() }
